@@ -344,8 +344,14 @@ func MACSize(uplink bool, cid byte) int {
 	if l := MACLayout(uplink, cid); l != nil {
 		return l.Size
 	}
-	return 0
+	return ExtraSizes[uplink][cid]
 }
+
+// ExtraSizes holds payload sizes of standard-range CIDs (< 0x80) that this table does not describe but the
+// library under test registers from the start (a command of an older specification revision, say). The
+// table cannot judge their format; their framing follows the registered size. Filled by the monitors once,
+// before any proprietary registration.
+var ExtraSizes = map[bool]map[byte]int{true: {}, false: {}}
 
 // DLSettingsLayout is the join-accept DLSettings byte: OptNeg 7, RX1DRoffset 6:4, RX2DataRate 3:0.
 var DLSettingsLayout = &Layout{Name: "DLSettings", Size: 1, Fields: []Field{
